@@ -95,7 +95,7 @@ theorem removeTxs_gone (is : List Nat) : ∀ p, ∀ id ∈ is, id ∉ ids (remov
       by_cases he : qExist p id = true
       · simp only [he, if_true] at hsub
         exact not_mem_ids_remove p id hsub
-      · simp only [he, if_false] at hsub
+      · simp only [he] at hsub
         have := (qExist_false_iff p id).mp (by simpa using he)
         exact this hsub
     · exact ih _ id h
@@ -123,7 +123,7 @@ theorem addBlock_gone (cfg : Cfg) (p : Pool) (bh bbt : Int) (is : List Nat) (now
 
 /-! ### the newest entry -/
 
-theorem push_ok_newest (cfg : Cfg) (hper : 0 < cfg.perAcc) (hlast : 0 < cfg.lastMax) (p : Pool) (tx : Tx) (now : Int)
+theorem push_ok_newest (cfg : Cfg) (hper : 0 < cfg.perAcc) (_hlast : 0 < cfg.lastMax) (p : Pool) (tx : Tx) (now : Int)
     (hi : Inv cfg p) (hok : (push cfg p tx now).2 = .ok) :
     (contents (push cfg p tx now).1).getLast? = some tx ∧ ((push cfg p tx now).1).last.getLast? = some tx := by
   unfold push at hok ⊢
